@@ -12,6 +12,7 @@
 -/
 import Fsel.Model.Agg
 import Fsel.Lemmas.Text
+import Fsel.Lemmas.Num
 
 namespace Fsel.C07
 open Fsel TextL
@@ -117,6 +118,62 @@ theorem empty_spec (key : Str) :
     aggregate .VarSamp [] key = ([], true) := by
   refine ⟨?_, ?_, ?_, ?_, ?_, ?_, ?_⟩ <;>
     simp [aggregate, bufferSum, colValues, listMin, listMax, showInt, showNat_zero]
+
+/-! ### variance: the textbook two-pass formula, exactly, in ℚ -/
+
+theorem u64_lt_pow (x : Nat) (h : x ≤ u64Max) : (x : Rat) < ((2 ^ 1024 : Nat) : Rat) := by
+  have h1 : x < 2 ^ 1024 := by
+    have h64 : u64Max < 2 ^ 64 := by decide
+    have hle : 2 ^ 64 ≤ 2 ^ 1024 := Nat.pow_le_pow_right (by omega) (by omega)
+    omega
+  exact_mod_cast h1
+
+theorem filterMap_parseF64 (xs : List Nat) (h : ∀ x ∈ xs, x ≤ u64Max) :
+    (xs.map showNat).filterMap parseF64? = xs.map fun (x : Nat) => Num.mk (x : Rat) true := by
+  induction xs with
+  | nil => rfl
+  | cons x xs ih =>
+    have hx := NumL.parseF64_showNat x (u64_lt_pow x (h x (by simp)))
+    simp only [List.map_cons, List.filterMap_cons, hx]
+    rw [ih (fun y hy => h y (by simp [hy]))]
+
+/-- the accumulation loop of `varianceQ` over finite values is the sum of the squared deviations over `n` -/
+theorem variance_fold (avg : Rat) (n : Nat) (e : Nat → Bool) (xs : List Nat) (a : Rat) (b : Bool) :
+    ((xs.map fun (x : Nat) => Num.fin (x : Rat) (e x)).foldl (fun (acc : Rat × Bool) v =>
+      match v with
+      | .fin q ex => (acc.1 + (avg - q) * (avg - q) / (n : Rat), acc.2 && ex)
+      | _ => (acc.1, false)) (a, b)).1 = a + (xs.map fun (x : Nat) => (avg - (x : Rat)) * (avg - (x : Rat)) / (n : Rat)).sum := by
+  induction xs generalizing a b with
+  | nil => simp [Rat.add_zero]
+  | cons x xs ih =>
+    simp only [List.map_cons, List.foldl_cons, List.sum_cons]
+    rw [ih, Rat.add_assoc]
+
+/-- **VAR_POP / VAR_SAMP are the textbook formulas**: for a column of naturals the model's value is
+    exactly Σ (μ − x)² / n with μ = Σx / count — n = count for the population variance, count − 1 for the
+    sample variance (the f64 computation agrees up to rounding: decided by the correspondence with a
+    tolerance and by Python's `statistics`) -/
+theorem variance_spec (key : Str) (xs : List Nat) (h : ∀ x ∈ xs, x ≤ u64Max) (n : Nat) :
+    (varianceQ (rowsOf key xs) key n).1 =
+      (xs.map fun (x : Nat) => ((xs.sum : Rat) / (xs.length : Rat) - (x : Rat)) * ((xs.sum : Rat) / (xs.length : Rat) - (x : Rat)) / (n : Rat)).sum := by
+  unfold varianceQ
+  simp only [avg_spec key xs h, colValues_rowsOf, filterMap_parseF64 xs h]
+  have hm : (xs.map fun (x : Nat) => Num.mk (x : Rat) true) = xs.map fun (x : Nat) => Num.fin (x : Rat) (true && dyadicSmall (x : Rat)) := rfl
+  rw [hm]
+  have hv := variance_fold ((xs.sum : Rat) / (xs.length : Rat)) n (fun x => true && dyadicSmall (x : Rat)) xs 0 true
+  rw [Rat.zero_add] at hv
+  exact hv
+
+/-- the divisor: population = number of rows, sample = number of rows − 1 (1 for a single row) -/
+theorem variance_divisors (rows : List Memo) (key : Str) (hne : rows.isEmpty = false) :
+    (aggregate .VarPop rows key).1 = (showNumQ (varianceQ rows key rows.length).1 (varianceQ rows key rows.length).2).1 ∧
+    (aggregate .VarSamp rows key).1 =
+      (showNumQ (varianceQ rows key (if rows.length == 1 then 1 else rows.length - 1)).1
+                (varianceQ rows key (if rows.length == 1 then 1 else rows.length - 1)).2).1 := by
+  constructor <;> simp [aggregate, hne]
+
+/-- the hypothesis is satisfiable (sizes 2, 4, 4, 4, 5, 5, 7, 9: mean 5, population variance 4) -/
+example : ∀ x ∈ [2, 4, 4, 4, 5, 5, 7, 9], x ≤ u64Max := by decide
 
 /-! ### a column that is empty for some entries (e.g. `line_count` of a directory) -/
 
